@@ -373,7 +373,12 @@ class C07(Monitor):
             ]
         # thorough: every stratum of the grammar and the families, without the stdlib
         # corpus and the triple/depth-3 strata (their documents add volume, not shapes)
-        return [x for x in progs_strata(self.tier, False, None) if x[0] not in ("C", "Pd2", "Pd3", "Pdn")]
+        st = [x for x in progs_strata(self.tier, False, None) if x[0] not in ("C", "Pd2", "Pd3", "Pdn", "F")]
+        # the quick tier's boundary families (the thorough ones add hundreds of programs
+        # of thousands of statements: volume for the JSON codec, not shapes)
+        S = spaces
+        st.append(("F", lambda: S.feat_cases("quick"), S.n_feat_cases("quick")))
+        return st
 
     def predicted(self):
         n = consts.size(self.tier) * len(self.const_positions()) + len(STRINGS) * len(STRING_POSITIONS) + 4
